@@ -138,7 +138,7 @@ func runC14(c *Ctx) {
 	})
 
 	// multi-Step programs
-	nprog := c.Pick(200, 20000)
+	nprog := c.Pick(200, 400000)
 	Parallel(nprog, func(pi int) {
 		r := mon.NewRng(mon.Hash(uint64(c.Seed), uint64(pi), 0xC14B))
 		mem := &mon.Mem{}
@@ -259,7 +259,7 @@ func runC14(c *Ctx) {
 		mem.Fill(r.U64())
 		finals := []uint8{0x23, 0x2b, 0x09, 0x19, 0x29, 0x39, 0x00, 0x3c, 0x04} // no operands, no jumps
 		for np := 1; np <= 6; np++ {
-			for rep := 0; rep < c.Pick(200, 4000); rep++ {
+			for rep := 0; rep < c.Pick(200, 100000); rep++ {
 				seq := make([]uint8, 0, np+1)
 				for i := 0; i < np; i++ {
 					seq = append(seq, []uint8{0xdd, 0xfd}[r.Intn(2)])
